@@ -78,7 +78,7 @@ theorem disconnected_instances_do_not_reply (E : Env) (h : Header) (cres : Optio
     that cannot come back with a winning renewed identity handles a TurnUndead from an inactive sender
     by going (or staying) Defunct and sends nothing back. False before the `fix:` commit for F3. -/
 theorem turnundead_from_down_member_is_not_answered_when_defunct (E : Env) (src dst : Id) (inc : Nat) (c : Ctx)
-    (h : ∀ n, renew c.s.policy c.s.id = some n → (n = c.s.id ∨ n.wins c.s.id = false)) :
+    (h : ∀ n, renew c.s.policy c.s.id = some n → (n = c.s.id ∨ renewWins c.s.policy n c.s.id = false)) :
     ∃ c', inactiveSender E ⟨src, inc, dst, .turnUndead⟩ c = .ok () c' ∧
       c'.eff = c.eff ++ [.notify .defunct] ∧ c'.s.conn = .undead := by
   obtain ⟨c1, h1, h2, h3, h4⟩ := C10.down_without_renewal_is_defunct E c h
